@@ -23,6 +23,9 @@ def _addr(arg, pat):
     i, quoted, start = m.end(0), False, m.end(0)
     while i < len(arg):
         c = arg[i:i + 1]
+        if c == b'\\' and quoted:
+            i += 2              # quoted-pair: the next character is literal
+            continue
         if c == b'"':
             quoted = not quoted
         elif c == b'>' and not quoted:
